@@ -203,7 +203,15 @@ def run_dist(case, v):
         v.check(bool(np.all(E == 10.0 ** case["log10E"])), "energies are the supplied constant")
     # ---- weights, recomputed independently for the first 300 particles
     shells, R = prem.MODELS["PREM"]
+    import pyrex.particle as pp_
+    want_model = {"CTW": pp_.CTWInteraction, "GQRS": pp_.GQRSInteraction}[case.get("model", "CTW")]
+    ref_inter = None
     for p in parts:
+        v.check(type(p.interaction) is want_model, "particles interact according to the generator's configured interaction model", got=type(p.interaction).__name__, configured=want_model.__name__)
+        # interaction length from the configured model for this particle type and energy (independent of the particle's own object)
+        ref = pp_.Particle(p.id, p.vertex, p.direction, p.energy, interaction_model=want_model, interaction_type=p.interaction.kind)
+        v.close("interaction length used for the weights is the configured model's", abs(ref.interaction.total_interaction_length - p.interaction.total_interaction_length) / ref.interaction.total_interaction_length, 1e-12,
+                configured=want_model.__name__, got=type(p.interaction).__name__)
         L = p.interaction.total_interaction_length
         v.close("total interaction length == 1/(N_A sigma_total)", abs(L * scipy.constants.N_A * p.interaction.total_cross_section - 1), 1e-12)
         ex, Lch, jumps = prem.chord(shells, R, p.vertex, -np.asarray(p.direction))
